@@ -37,8 +37,11 @@ CLAIM = dict(
           "subregions and a per-node local table; generators whose tree changed while open are not judged), and by the "
           "region lists the real MachineController.flood_fill_aplx / load_application send (FFCS packets of sequences of "
           "calls on one controller against a recording machine, decoded by the documented packet layout arg1 = command "
-          "<< 24 | core mask, arg2 = region; every fill judged against the targets of that flood_fill_aplx invocation, "
-          "including the retries load_application makes)."),
+          "<< 24 | core mask, arg2 = region; load_application with 1-4 binaries per call, cores failing in any subset of "
+          "the binaries and in any round, both verification modes, n_tries 1-3; every fill of every round judged against "
+          "what must be selected for THAT binary in THAT round, computed without the controller's own arguments: the "
+          "binary's targets as the caller gave them for a direct fill and the first round, and for a re-load round exactly "
+          "that binary's cores that were not in the wait state on the simulated machine after the previous round)."),
     design="3/C12",
     note=("Proved: everything above, about the Lean model and the Lean specification. Validated only (differential "
           "testing, every run): that the Lean model computes what regions.py computes. Trusted: that SC&MP reads a "
@@ -96,7 +99,10 @@ RULE = ("target sets built from shapes: sparse points (whole grid or a small win
         "holds several groups) whose read-outs stay generator objects: opened, advanced alternately by 1-5 pairs, "
         "drained, abandoned, other trees growing meanwhile; one MachineController on a recording machine (chips in a "
         "window, scattered over level boundaries, or a full 4 x 4 block): 2-6 steps flood_fill_aplx(path, targets) / "
-        "flood_fill_aplx({path: targets, ...}) / load_application with chips that miss some fills (retries), the next "
+        "flood_fill_aplx({path: targets, ...} of 2-4 binaries) / load_application of 1-4 binaries with pairwise disjoint "
+        "cores in random dictionary order, count or per-core verification, n_tries 1-3, with up to 16 fills of the "
+        "sequence losing none, a few, half or nearly all chips (so any subset of the binaries is re-loaded, up to a "
+        "third round), the next "
         "request for a binary being the same chips with other cores, a part, a superset, the same again, or fresh, "
         "the same or another binary, the same dictionary object edited in place, a binary that cannot be opened; "
         "options drawn per case: argument kinds (ints, core collections, dictionary and key types), calling conventions, "
@@ -1246,10 +1252,26 @@ def gen_fills(rng):
         chips = [(ox + i, oy + j) for i in range(4) for j in range(4)]
         chips += [(min(255, ox + 4), oy), (ox, min(255, oy + 5))][:rng.randrange(3)]
         chips = sorted(set(chips))
-    chips = [list(c) for c in chips]
+    # (255, 255) is the SCP address of "the chip the connection is attached to": the simulated machine answers it
+    # with its root chip, so a machine with a real chip there would alias two chips in the controller's read-back
+    chips = [list(c) for c in chips if tuple(c) != (255, 255)] or [[0, 0]]
     tch = [tuple(c) for c in chips]
-    images = [[rng.randrange(256) for _ in range(4 * rng.randrange(1, 9))] for _ in range(3)]
+    images = [[rng.randrange(256) for _ in range(4 * rng.randrange(1, 9))] for _ in range(4)]
     steps, last = [], {}
+
+    def disjoint_map(first_name, first_t, n):
+        """n binaries with pairwise disjoint cores, in a random dictionary order"""
+        pairs, used = [[first_name, first_t]], {(x, y, p) for x, y, cs in first_t for p in cs}
+        for other in [b for b in rng.sample(range(4), 4) if b != first_name][:n - 1]:
+            t2 = gen_targets_on(rng, tch)
+            t2 = [[x, y, [p for p in cs if (x, y, p) not in used]] for x, y, cs in t2]
+            t2 = [e for e in t2 if e[2]]
+            if t2:
+                used |= {(x, y, p) for x, y, cs in t2 for p in cs}
+                pairs.append([other, t2])
+                last[other] = t2
+        rng.shuffle(pairs)
+        return pairs
     app_id = rng.choice([30, 31, 66])
     for i in range(rng.choice([2, 2, 3, 4, 6])):
         name = rng.choice([0, 0, 0, 1, 2]) if i else 0
@@ -1265,22 +1287,17 @@ def gen_fills(rng):
         elif r < 0.5:
             # a last `True`: the caller passes the SAME dictionary object as last time for this binary, edited in place
             steps.append(["ff", name, t, app_id, rng.random() < 0.6] + ([True] if rng.random() < 0.4 else []))
-        elif r < 0.65:
-            other = (name + 1) % 3
-            t2 = gen_targets_on(rng, tch)
-            used = {(x, y, p) for x, y, cs in t for p in cs}
-            t2 = [[x, y, [p for p in cs if (x, y, p) not in used]] for x, y, cs in t2]
-            t2 = [e for e in t2 if e[2]]
-            pairs = [[name, t]] + ([[other, t2]] if t2 else [])
-            if t2:
-                last[other] = t2
-            steps.append(["ffmap", pairs, app_id, rng.random() < 0.6])
+        elif r < 0.6:
+            steps.append(["ffmap", disjoint_map(name, t, rng.choice([2, 2, 3, 4])), app_id, rng.random() < 0.6])
         else:
-            steps.append(["load", [[name, t]], app_id, rng.choice([1, 2, 3]), rng.random() < 0.5, rng.random() < 0.5]
-                         + ([True] if rng.random() < 0.3 else []))
+            # one load_application call for 1-4 binaries (dictionary order random); which fills lose which chips is
+            # drawn below, so cores fail in any subset of the binaries, in any round
+            steps.append(["load", disjoint_map(name, t, rng.choice([1, 2, 2, 3, 4])), app_id, rng.choice([1, 2, 3]),
+                          rng.random() < 0.5, rng.random() < 0.5] + ([True] if rng.random() < 0.3 else []))
     missed = []
-    for i in range(rng.choice([0, 0, 2, 4, 8])):
-        missed.append([list(c) for c in tch if rng.random() < rng.choice([0.0, 0.2, 0.5])])
+    for i in range(rng.choice([0, 2, 4, 8, 12, 16])):
+        q = rng.choice([0.0, 0.0, 0.2, 0.5, 0.9])
+        missed.append([list(c) for c in tch if rng.random() < q])
     cfg = {"buf": rng.choice([64, 128, 256, 256]), "sver": rng.choice(["semver", "semver", "legacy"]),
            "sdram_sys": rng.choice([0x60000000, 0x60240000, 0x67800000]),
            "vcpu_base": rng.choice([0xe5007000, 0xe5004000])}
@@ -1371,6 +1388,27 @@ def impl_fills(c):
                     continue
                 errors.append([i, r["err"] + (" " + r.get("where", "") if r.get("where") else "")])
                 break
+    # what each fill must select, NOT taken from the arguments the controller built: a direct flood fill and the
+    # first round of load_application select the binary's targets as the caller gave them; a re-load round selects
+    # exactly that binary's cores that were not in the wait state after the previous round (the machine's state at the
+    # round's first start packet: nothing changes between the controller's probing and that packet)
+    first_inv = {}
+    for j, call in enumerate(calls):
+        first_inv.setdefault(call["inv"], j)
+    step_first_inv = {}
+    for call in calls:
+        step_first_inv.setdefault(call["step"], call["inv"])
+    for j, call in enumerate(calls):
+        st = c["steps"][call["step"]]
+        given = {n: t for n, t in ([[st[1], st[2]]] if st[0] == "ff" else st[1])}
+        want = [[x, y, p] for x, y, cs in given.get(call["name"], []) for p in cs]
+        call["round"] = 1
+        if st[0] == "load" and call["inv"] != step_first_inv[call["step"]]:
+            call["round"] = 1 + call["inv"] - step_first_inv[call["step"]]
+            k0 = first_inv[call["inv"]]
+            snap = machine.snapshots[k0] if k0 < len(machine.snapshots) else {}
+            want = [q for q in want if snap.get(tuple(q), (h9.IDLE, 0, ()))[0] != h9.WAIT]
+        call["expect"] = sorted(want)
     fills = []
     for raw, _ in machine.log:
         if raw["cmd"] != 20:
@@ -1390,7 +1428,7 @@ def prepare_fills(c, reqs, idx):
     for i, (call, pairs) in enumerate(zip(c["impl"]["calls"], c["impl"]["fills"])):
         reqs.append({"suite": "c12", "op": "compress", "targets": call["order"]})
         idx.append((c, ("model", i)))
-        tg = sorted(call["order"])
+        tg = call["expect"]
         reqs.append({"suite": "c12", "op": "oracle", "targets": tg, "out": pairs, "queries": queries({}, tg)})
         idx.append((c, ("oracle", i)))
 
@@ -1407,9 +1445,12 @@ def verdict_fills(c):
     if len(r["calls"]) != len(r["fills"]) and not r["errors"]:
         mism = mism or "%d flood fills requested, %d flood-fill start packets seen" % (len(r["calls"]), len(r["fills"]))
     for i, (call, pairs) in enumerate(zip(r["calls"], r["fills"])):
-        where = ("flood fill #%d of a sequence on one MachineController (binary %s): the FFCS packets carry (region, core "
-                 "mask) = %s for the targets of that call %s" % (i + 1, call["name"], str(pairs)[:200],
-                                                                 str(call["targets"])[:200]))
+        where = ("flood fill #%d of a sequence on one MachineController (step %d, binary %s, %s): the FFCS packets carry "
+                 "(region, core mask) = %s where exactly the cores %s must be selected"
+                 % (i + 1, call["step"], call["name"],
+                    "as requested" if call["round"] == 1 else "re-load round %d of load_application: this binary's cores "
+                    "that were not waiting after the previous round" % call["round"], str(pairs)[:200],
+                    str(call["expect"])[:200]))
         m = c[("model", i)]
         if m != {"ok": pairs}:
             mism = mism or "%s; model: %s" % (where, str(m)[:200])
@@ -1543,6 +1584,17 @@ def finish_seq(ctx, c, desc):
                 ctx.tag("fills_same_dictionary_object_edited_in_place")
         if r.get("faults"):
             ctx.tag("fills_used_on_after_failed_call")
+        for i, st in enumerate(c["steps"]):
+            if st[0] != "load":
+                continue
+            ctx.tag("fills_load_%d_binaries_%s" % (len(st[1]), "count" if st[5] else "probe"))
+            later = [call for call in r["calls"] if call["step"] == i and call["round"] > 1]
+            if later and len(st[1]) > 1:
+                order = [n for n, _ in st[1]]
+                pos = sorted({order.index(call["name"]) for call in later if call["name"] in order})
+                ctx.tag("fills_reload_binaries_at_%s_of_%d" % ("+".join(map(str, pos)), len(order)))
+                if any(call["round"] > 2 for call in later):
+                    ctx.tag("fills_third_round")
         cfg = c.get("cfg") or {}
         ctx.tag("fills_cfg_buf%s_%s" % (cfg.get("buf", 256), cfg.get("sver", "semver")))
         seen, again = {}, False
@@ -1790,7 +1842,8 @@ def run(ctx):
         "what a generator yields after its own tree changed while it was open is unspecified and not judged",
         "the simulated machine behind the controller (harness/c09.LoadMachine) is used only to record the packets and to "
         "make load_application retry; FFCS packets are attributed to flood_fill_aplx invocations in order (one start "
-        "packet per binary of an invocation)",
+        "packet per binary of an invocation); which cores wait after a round is read from the simulated machine at the "
+        "next round's first start packet; the machine has no chip (255, 255) (the SCP address of the local chip)",
         "the enumerating oracle (exactB, strictB) is proved to decide `Exact` / `StrictlyIncreasing` for target lists "
         "without repetition (exactB_iff, strictB_iff); that hypothesis is decided by the driver on every call "
         "(nodupB, nodupB_iff) and a repetition would be reported as a harness error; the literal `countSel` is still "
